@@ -169,6 +169,11 @@ func tryNormalised(prog *core.Prog, prop, tier string, seed int64, verif string,
 	n2 := rep2.Unlisted(known)
 	fmt.Printf("note: %d violation(s) on the source as written; normal form with %d call(s) of %d new function(s) inlined: %d violation(s)\n", rawViolations, len(irep.Inlined), len(irep.NewFuncs), n2)
 	if n2 > 0 {
+		// what is left after the new helpers are written out is usually the shortest statement of
+		// the problem: say it, then report the source as written
+		for _, o := range rep2.UnlistedViolations(known) {
+			fmt.Printf("note: still violated in the normal form: %s %s: %s\n", o.Rule, o.Construct, o.Detail)
+		}
 		if os.Getenv("VERIF_DEBUG") != "" {
 			rep2.Finish(filepath.Join(os.TempDir(), "verifchk-normal-debug"), known)
 		}
